@@ -42,6 +42,7 @@ type cfg struct {
 	Name    string
 	Variant string // fsub | dsub | fclone>sub | fclone>fsub | dclone>sub
 	F0, F1  int    // filter of the top node / of the nested fsub
+	F2      int    // innermost filter of the depth-3 variant
 	Init    []metav1.Object
 	Hist    []pop
 	Refs    []int // Refilter script for the top node
@@ -148,6 +149,8 @@ func (in *inst) spec() []hx.Spec {
 		return []hx.Spec{{Kind: "fclone", Filter: c.F0, Children: []hx.Spec{{Kind: "fsub", Filter: c.F1}}}}
 	case "dclone>sub":
 		return []hx.Spec{{Kind: "dclone", Children: []hx.Spec{{Kind: "sub"}}}}
+	case "fclone>fclone>fsub":
+		return []hx.Spec{{Kind: "fclone", Filter: c.F0, Children: []hx.Spec{{Kind: "fclone", Filter: c.F1, Children: []hx.Spec{{Kind: "fsub", Filter: c.F2}}}}}}
 	}
 	panic("bad variant")
 }
@@ -338,6 +341,12 @@ func (in *inst) check(r *vs.Result) []string {
 		seq = append(seq, c.Refs...)
 		tops := []int{}
 		from := o.refDone
+		if n != in.top {
+			// deeper nodes may lag several of the top node's refilters behind
+			if n.Parent != in.top {
+				from = 0
+			}
+		}
 		if n != in.top && from > 0 {
 			// a node below the refiltered one syncs from that node's cache, whose goroutine may still be
 			// processing the last Refilter call that returned
@@ -350,9 +359,9 @@ func (in *inst) check(r *vs.Result) []string {
 		}
 		for _, tf := range tops {
 			fs := []int{tf}
-			// other filters on the path (nested fsub)
+			// other filters on the path (nested nodes)
 			for x := n; x != nil && x != in.top; x = x.Parent {
-				if x.Spec.Kind == "fsub" {
+				if x.Spec.Kind == "fsub" || x.Spec.Kind == "fclone" {
 					fs = append(fs, x.Spec.Filter)
 				}
 			}
@@ -452,6 +461,7 @@ func configs(tier string) []cfg {
 		{Name: "fclone[l=1]>sub/refilter(Null)/h2", Variant: "fclone>sub", F0: 2, Init: init1, Hist: h2, Refs: []int{0}, Mode: "S2", Bound: d},
 		{Name: "fclone[l=1]>fsub[name=a]/refilter(Null)/h3", Variant: "fclone>fsub", F0: 2, F1: 4, Init: init1, Hist: h3, Refs: []int{0}, Mode: "S2", Bound: d},
 		{Name: "dclone>sub/refilter(l=1)/relist", Variant: "dclone>sub", Init: init1, Hist: hr, Refs: []int{2}, Mode: "S2", Bound: d},
+		{Name: "fclone[Null]>fclone[l=1]>fsub[name=a]/refilter(l=1)/h3", Variant: "fclone>fclone>fsub", F0: 0, F1: 2, F2: 4, Init: init2, Hist: h3, Refs: []int{2}, Mode: "S2", Bound: d},
 		{Name: "fsub[l=1]/init-a1/upd-a2(l=0)", Variant: "fsub", F0: 2, Init: init1, Hist: h2[:1], Mode: "S1"},
 		// never-empty views: an unsynced (empty) cache at readiness cannot be mistaken for a synced one
 		{Name: "fsub[l=1]/init-a1,b1/upd-a2(l=0)", Variant: "fsub", F0: 2, Init: init2, Hist: h2[:1], Mode: "S1"},
